@@ -12,6 +12,13 @@ from sklearn.utils import check_array, check_random_state
 from sklearn.utils._param_validation import Interval, StrOptions
 from sklearn.utils.validation import check_is_fitted
 
+try:
+    # scikit-learn >= 1.6 replaced BaseEstimator._validate_data by a function
+    from sklearn.utils.validation import validate_data
+except ImportError:  # pragma: no cover
+    def validate_data(estimator, *args, **kwargs):
+        return estimator._validate_data(*args, **kwargs)
+
 from gemclus.gemini import AVAILABLE_GEMINIS
 from .gemini._base_loss import _GEMINI
 from .gemini._utils import _str_to_gemini
@@ -231,7 +238,7 @@ class DiscriminativeModel(ClusterMixin, BaseEstimator, ABC):
 
         # Check that X has the correct shape
         X = check_array(X)
-        X = self._validate_data(X, accept_sparse=True, dtype=np.float64, ensure_min_samples=self.n_clusters)
+        X = validate_data(self, X, accept_sparse=True, dtype=np.float64, ensure_min_samples=self.n_clusters)
 
         # Fix the random seed
         random_state = check_random_state(self.random_state)
